@@ -41,6 +41,14 @@ fn special(rng: &mut Rng, k: u64) -> Felt {
     }
 }
 
+/// runs `f` on its own thread and gives up waiting after `secs` seconds (the thread is left behind; the
+/// process ends when the report is written)
+fn bounded<T: Send + 'static>(secs: u64, f: impl FnOnce() -> T + Send + 'static) -> Option<T> {
+    let (tx, rx) = std::sync::mpsc::channel();
+    std::thread::Builder::new().stack_size(64 << 20).spawn(move || { let _ = tx.send(f()); }).ok()?;
+    rx.recv_timeout(std::time::Duration::from_secs(secs)).ok()
+}
+
 pub fn run(args: &Args) -> Report {
     let seed = args.u64("seed", 1);
     let thorough = args.thorough();
@@ -62,7 +70,16 @@ pub fn run(args: &Args) -> Report {
             let z = special(&mut rng, if k < 3 { k } else { 9 });
             let alpha = special(&mut rng, if k >= 1 && k < 4 { k - 1 } else { 9 });
             let want = naive_diluted(nb, sp, z, alpha);
-            let got = catch(|| get_diluted_product(Felt::from(nb), Felt::from(sp), z, alpha));
+            // evaluated on a thread of its own: the recurrence takes microseconds (n_bits <= 16 rounds), so a
+            // call that has not returned after 60 s is a loop that does not end, not a slow machine
+            let got = match bounded(60, move || catch(|| get_diluted_product(Felt::from(nb), Felt::from(sp), z, alpha))) {
+                Some(g) => g,
+                None => {
+                    rep.case(&format!("dil|{nb}|{sp}|{}|{}", hex(&z), hex(&alpha)), true);
+                    rep.violation("C15|diluted-no-result", &format!("get_diluted_product(n_bits = {nb}, spacing = {sp}) did not return within 60 s (the defining recurrence has {nb} rounds)"), json!({"n_bits": nb, "spacing": sp, "z": hex(&z), "alpha": hex(&alpha)}));
+                    break;
+                }
+            };
             rep.case(&format!("dil|{nb}|{sp}|{}|{}", hex(&z), hex(&alpha)), nb >= 2);
             rep.inc("diluted.cases");
             if nb == 16 && sp == 4 {
